@@ -306,5 +306,10 @@ def python_to_float(value: Union[SupportsFloat, str]) -> str:
     return str(value)
 
 
+def python_to_decimal(value: object) -> str:
+    # str(Decimal) switches to the exponent notation for small numbers
+    return format(value, 'f') if isinstance(value, Decimal) else str(value)
+
+
 def python_to_int(value: Union[SupportsInt, str]) -> str:
     return str(int(value))
